@@ -35,6 +35,13 @@ TEXT = {
             "and div/mod never overflow; shifts = (a*2^s) mod 2^w and a/2^s; ~a = 2^w-1-a; neg/truediv unsupported. "
             "Tie to code: basic.py operators run against the model on boundary/random operands for all six widths.",
             "Coq proof (lia + Z bit lemmas) + vm_compute correspondence with basic.py", "5 (C13)"),
+    "C18": ("Theorems: get_target_history (model of the fixed code, recursion on the gindex path with per-level "
+            "de-duplication) equals 'look the position up in every entry and drop consecutive repeats' on keys and roots, "
+            "for all histories and targets (premise Hinj); never empty for a non-empty history; get_diff empty on equal "
+            "roots, sound (pairs differ, one side a leaf, same position), grafting its second members reproduces the "
+            "second root; leaf_iter = leaves at leaf positions left to right. Tie: history.py / tree.py on generated "
+            "histories (repeats, reversions) and tree pairs.",
+            "Coq proof by induction on paths / trees + correspondence", "5 (C18)"),
 }
 import importlib, sys
 sys.path.insert(0, os.path.join(V, "harness"))
